@@ -96,7 +96,7 @@ def cpp_member(name):
     return special.get(name, name)
 
 
-def gen_driver(ir, header_name, writable=False, max_bits_depth=3, max_elems=2):
+def gen_driver(ir, header_name, writable=False, max_bits_depth=3, max_elems=2, align=1):
     """Returns (source text, [Entry]) for the main module of `ir`."""
     module = ir.module[0]
     lines = ['#include <cstdint>', '#include <cstddef>', '#include <cstring>', '#include "%s"' % header_name, ""]
@@ -122,6 +122,9 @@ def gen_driver(ir, header_name, writable=False, max_bits_depth=3, max_elems=2):
             continue
         sig = ", ".join(["%s* p" % byte, "size_t n"] + plist)
         mk = "%s(%s)" % (maker_name(tdef, ir), ", ".join(pargs + ["p", "n"]))
+        if align > 1:
+            mk = "%s<%s, %d>(%s)" % (maker_name(tdef, ir).replace("::Make", "::MakeAligned"), byte, align,
+                                     ", ".join(pargs + ["p", "n"]))
 
         def emit(fn, ret, body, kind, path=(), extra=None):
             ctype = {"bool": "bool", "u64": "uint64_t", "i32": "int"}[ret]
@@ -183,9 +186,44 @@ def gen_driver(ir, header_name, writable=False, max_bits_depth=3, max_elems=2):
     return "\n".join(lines) + "\n", entries
 
 
-def write_driver(ir, emb_name, out_dir, writable=False):
-    src, entries = gen_driver(ir, emb_name + ".h", writable)
-    path = os.path.join(out_dir, ident(emb_name) + ("_w" if writable else "") + "_drv.cc")
+def write_driver(ir, emb_name, out_dir, writable=False, align=1):
+    src, entries = gen_driver(ir, emb_name + ".h", writable, align=align)
+    path = os.path.join(out_dir, ident(emb_name) + ("_w" if writable else "") + ("_a%d" % align if align > 1 else "") + "_drv.cc")
     with open(path, "w") as f:
         f.write(src)
     return path, entries
+
+
+def gen_driver2(ir, header_name):
+    """Two-view entry points (Equals / TryToCopyFrom) for C20."""
+    module = ir.module[0]
+    lines = ['#include <cstdint>', '#include <cstddef>', '#include <cstring>', '#include "%s"' % header_name, ""]
+    entries = []
+    for tdef in all_structs(module):
+        sname = ".".join(tdef.name.canonical_name.object_path)
+        sid = ident(sname)
+        plist, pargs = [], []
+        for p in tdef.runtime_parameter:
+            pn = p.name.name.text
+            if p.type.which_type == "integer":
+                plist.append("int64_t p_%s" % pn)
+                pargs.append("p_%s" % pn)
+            elif p.type.which_type == "enumeration":
+                et = ir_util.find_object(p.type.enumeration.name.canonical_name, ir)
+                plist.append("int64_t p_%s" % pn)
+                pargs.append("static_cast<%s>(p_%s)" % (cpp_type_name(et, ir), pn))
+            else:
+                plist = None
+                break
+        if plist is None:
+            continue
+        mk = lambda ptr, n: "%s(%s)" % (maker_name(tdef, ir), ", ".join(pargs + [ptr, n]))
+        sig_ro = ", ".join(["const unsigned char* p1", "size_t n1", "const unsigned char* p2", "size_t n2"] + plist)
+        sig_rw = ", ".join(["unsigned char* p1", "size_t n1", "const unsigned char* p2", "size_t n2"] + plist)
+        lines.append('extern "C" int %s__equals(%s) { auto a = %s; auto b = %s; if (!a.Ok() || !b.Ok()) return 2; return a.Equals(b) ? 1 : 0; }'
+                     % (sid, sig_ro, mk("p1", "n1"), mk("p2", "n2")))
+        entries.append(Entry("%s__equals" % sid, sname, "equals", (), "i32"))
+        lines.append('extern "C" bool %s__copy(%s) { auto d = %s; auto s = %s; return d.TryToCopyFrom(s); }'
+                     % (sid, sig_rw, mk("p1", "n1"), mk("p2", "n2")))
+        entries.append(Entry("%s__copy" % sid, sname, "copy", (), "bool"))
+    return "\n".join(lines) + "\n", entries
